@@ -28,3 +28,12 @@ void h_deser(void)
     VERIF_COVER(m == NULL);
     VERIF_COVER(m != NULL);
 }
+
+/* C12.hdr: nvm_validate_header == (magic "NVM\x01", version 1, section_count <= 16) */
+void h_hdr(void)
+{
+    const NvmHeader *h;
+    bool r = nvm_validate_header(h);
+    VERIF_COVER(r);
+    VERIF_COVER(!r);
+}
